@@ -84,7 +84,7 @@ fn lookup(id: &str) -> Option<(&'static str, Gen, Exec)> {
         "C08" => Some(("C08", c08::generate, c08::exec)),
         "C06" => Some(("C06", c06::generate, c06::exec)),
         "C03" => Some(("C03", c03::generate, c03::exec)),
-        "C14" => Some(("C14", c14::generate, c14::exec)),
+        "C14" => Some(("C14", c14_generate, c14_exec)),
         "C01" => Some(("C01", c01_generate, c01_exec)),
         "C02" => Some(("C02", c02_generate, c02_exec)),
         "C10" => Some(("C10", c10_generate, c10_exec)),
@@ -129,6 +129,18 @@ fn c10_exec(toks: &[&str]) -> String {
         Some(&"smsgd") => certd::exec_smsg(toks),
         _ => c10::exec(toks),
     }
+}
+
+fn c14_generate(ctx: &mut Ctx) {
+    c14::generate(ctx);
+    // whole manifest objects: Manifest::decode (envelope, certificate, attributes, content) against CmsDer.decodeTyped
+    let pool = pki::Pool::new(3);
+    let seeds: Vec<(&'static str, Vec<u8>)> = c04::seeds(&pool).into_iter().filter(|s| s.0 == "mft").collect();
+    certd::generate_cms_into(ctx, &seeds, &c04::mutate_any, &|_| Vec::new());
+}
+
+fn c14_exec(toks: &[&str]) -> String {
+    if toks.first() == Some(&"cmsd") { certd::exec_cms(toks) } else { c14::exec(toks) }
 }
 
 fn c04_generate(ctx: &mut Ctx) {
